@@ -229,6 +229,13 @@ fn recv(vals: &[u8]) -> Result<Outcome, String> {
         if res.is_ok() == re_p {
             bad = Some(format!("reply with error member = {} gives {}", re_p, if res.is_ok() { "Ok" } else { "Err" }));
         }
+        // the call's continues flag is private: its public observer is the iterator, which must end after a final reply
+        if bad.is_none() && !more_coming {
+            if let Some(x) = call.next() {
+                bad = Some(format!("after the final reply the iterator yields another item ({}) instead of ending: the call's continues flag is still set",
+                                   match x { Ok(v) => v.to_string(), Err(e) => kind_name(&e) }));
+            }
+        }
     } else if res.is_ok() {
         bad = Some("recv succeeded without a reply".into());
     }
@@ -304,6 +311,45 @@ fn error_kind(vals: &[u8]) -> Result<Outcome, String> {
 // decoding the solver's assignment: a `more` call against k continues replies and a final reply (result, error, result
 // with continues spelled false), then a plain call on the same connection.
 pub fn client_iter(_vals: &[u8]) -> Outcome {
+    // oneway() sends and reads nothing; upgrade() / call() read exactly their own reply
+    {
+        let stream = b"{\"parameters\":{\"n\":1}}\0{\"parameters\":{\"n\":2}}\0".to_vec();
+        let (conn, w) = connection(stream, false);
+        let bad = |detail: String| Outcome { reproduced: true, role: "call-modes".into(),
+                                             scenario: "oneway(), then upgrade(), then call() on one connection with two replies waiting".into(), detail };
+        let mut c0: Call = MethodCall::new(conn.clone(), "a.b.O", json!({}));
+        let r = std::panic::catch_unwind(std::panic::AssertUnwindSafe(|| c0.oneway()));
+        match r {
+            Ok(Ok(())) => {}
+            Ok(Err(e)) => return bad(format!("oneway() failed on a free connection: {}", kind_name(&e))),
+            Err(_) => return bad("oneway() panicked".into()),
+        }
+        let sent = messages(&w);
+        if sent.len() != 1 || sent[0].get("oneway") != Some(&json!(true)) || sent[0].get("more").is_some() || sent[0].get("upgrade").is_some() {
+            return bad(format!("oneway() wrote {:?}", sent));
+        }
+        if !free(&conn) {
+            return bad("the connection is taken after oneway()".into());
+        }
+        let mut c1: Call = MethodCall::new(conn.clone(), "a.b.U", json!({}));
+        match c1.upgrade() {
+            Ok(v) if v == json!({"n": 1}) => {}
+            other => return bad(format!("upgrade() after oneway() gave {:?} (a reply was consumed by oneway, or none was read)", other.map_err(|e| kind_name(&e)))),
+        }
+        let sent = messages(&w);
+        if sent.len() != 2 || sent[1].get("upgrade") != Some(&json!(true)) || sent[1].get("oneway").is_some() || sent[1].get("more").is_some() {
+            return bad(format!("upgrade() wrote {:?}", sent.last()));
+        }
+        let mut c2: Call = MethodCall::new(conn.clone(), "a.b.C", json!({}));
+        match c2.call() {
+            Ok(v) if v == json!({"n": 2}) => {}
+            other => return bad(format!("call() gave {:?}", other.map_err(|e| kind_name(&e)))),
+        }
+        let sent = messages(&w);
+        if sent.len() != 3 || sent[2].get("upgrade").is_some() || sent[2].get("oneway").is_some() || sent[2].get("more").is_some() {
+            return bad(format!("call() wrote {:?}", sent.last()));
+        }
+    }
     for k in 0..4usize {
         for fin in 0..3u8 {
             let mut stream = Vec::new();
